@@ -327,9 +327,15 @@ func (c *c04state) shape() string {
 	// such an event arrives, so it never had the occasion to register S.
 	// (If such an event did arrive after S was enabled, an unmodified watcher
 	// refutes with S; a missing refutation then is a different defect.)
+	// the tree: the ledger channel and the sub-channels that are still open (a
+	// sub-channel that was settled into the parent is no longer locked in the
+	// parent's newest state; an old state of it that the adversary registered
+	// together with an old parent state is superseded with the parent's)
 	ids := []channel.ID{id}
 	for _, si := range p.subs {
-		ids = append(ids, si.id)
+		if !si.closed {
+			ids = append(ids, si.id)
+		}
 	}
 	unregistered, explained := 0, 0
 	for _, cid := range ids {
